@@ -132,7 +132,22 @@ class GenX(F.Gen):
         self.assoc_depth = 0
 
     # ---- expressions
+    noarr = 0
+
+    def index(self, arr, dim, scalars, simple=None):
+        """In callees subscripts do not reference arrays (indirect addressing through a dummy array is a
+        construct of its own: feature 'nestedsub')."""
+        if self.ck == 'kernel' or 'nestedsub' in self.f:
+            return super().index(arr, dim, scalars, simple)
+        self.noarr += 1
+        try:
+            return super().index(arr, dim, scalars, simple)
+        finally:
+            self.noarr -= 1
+
     def int_leaf(self, scalars):
+        if self.noarr:
+            return V(self.rng.choice(scalars)) if self.rng.random() < 0.6 else N(self.rng.choice([0, 1, 2, 3, 5, 7]))
         if self.leaf_extra and self.xdepth < 2 and self.rng.random() < self.p_extra:
             self.xdepth += 1
             try:
@@ -484,7 +499,7 @@ class GenX(F.Gen):
         internal function of the kernel whose body is one assignment (host association = same semantics)."""
         sub = GenX(self.rng, (), ck='stmtfn')
         sub.setup('ib' in self.arrays)
-        sub.leaf_extra = [h['mkleaf'] for h in earlier] + [h['mkleaf'] for h in funs] + list(self.const_leaves)
+        sub.leaf_extra = [h['mkleaf'] for h in (earlier if 'sfnest' in self.f else [])] + [h['mkleaf'] for h in funs] + list(self.const_leaves)
         sub.p_extra = 0.2 if sub.leaf_extra else 0.0
         e = sub.int_expr(2, ['sa', 'sb', 'sa', 'n', 'm', 't1'])
         nargs = 2 if 'sb' in mentions(e) else 1
@@ -495,7 +510,15 @@ class GenX(F.Gen):
         u['ck'] = 'stmtfn'
         u['stmtfunc'] = True
         h = {'unit': u, 'ck': 'stmtfn', 'name': name, 'nargs': nargs}
-        h['mkleaf'] = lambda g, scalars, h=h: call(h['name'], *[g.int_expr(1, scalars) for _ in range(h['nargs'])])
+        def mkleaf(g, scalars, h=h):
+            saved = g.xdepth
+            if 'sfnest' not in g.f:
+                g.xdepth = 99          # no statement function / function references inside the arguments
+            try:
+                return call(h['name'], *[g.int_expr(1, scalars) for _ in range(h['nargs'])])
+            finally:
+                g.xdepth = saved
+        h['mkleaf'] = mkleaf
         return h
 
 
@@ -726,6 +749,19 @@ F.RENDERERS['inline'] = render
 TRANSFORM_TIMEOUT = int(__import__("os").environ.get("VERIF_TF_TIMEOUT", "90"))     # seconds; a transformation that does not return is a failure class
 
 
+_WARM = []
+
+
+def warm_up():
+    """Imports and the frontend's one-time set-up are not part of the transformation's time budget."""
+    if not _WARM:
+        import loki.transformations.inline  # noqa: F401  pylint: disable=unused-import
+        import loki.transformations.extract  # noqa: F401  pylint: disable=unused-import
+        from loki import Sourcefile
+        Sourcefile.from_source('module wm\ncontains\nsubroutine ws(a)\ninteger, intent(inout) :: a\na = a + 1\nend subroutine ws\nend module wm\n').to_fortran()
+        _WARM.append(1)
+
+
 def guarded(fn):
     """Run a transformation under a SIGALRM watchdog (behaviour_check calls it in the main thread)."""
     import functools
@@ -734,6 +770,7 @@ def guarded(fn):
 
     @functools.wraps(fn)
     def run(text, prog, workdir):
+        warm_up()
         if threading.current_thread() is not threading.main_thread():
             return fn(text, prog, workdir)
 
